@@ -64,7 +64,8 @@ struct Init {
             std::string sid = id;
             p.gen = [gpf, sid](uint64_t seed, bool th) { return gen_program(seed, gpf(th), sid); };
             p.check = [sid](Program &q) {
-                RunOpts o; o.check_usage = (sid == "C13"); RunResult r = run_program(q, o);
+                RunOpts o; o.check_usage = (sid == "C13"); o.check_hints = (sid == "C03" || sid == "C06");   // C03: requested alignments honoured on creation (hint / __enddef precedence) and reported as in force
+                RunResult r = run_program(q, o);
                 if (sid == "C08" && !r.violations.empty()) {
                     // known finding: a rank with invalid arguments in a collective put to a record variable skips the record-count Allreduce;
                     // everything observed at or after such an op in that run is attributed to it (tag), anything earlier is reported as usual
